@@ -29,13 +29,48 @@ CLAIM = dict(
           "proved (object identity is outside any pure model): histories of real place/allocate/route/table/minimise/"
           "bit-field/controller calls followed by a probe are compared with the probe run first in a fresh interpreter; "
           "deep snapshots show no argument is modified; every mutable default equals its source literal after every "
-          "history; memo contents equal the Lean memo model."),
+          "history; memo contents equal the Lean memo model. "
+          "(c) Static counterpart for ARGUMENTS and for state kept on OBJECTS (Props/C17Effects.lean): a conservative "
+          "syntactic effect scan over every function, method and nested function of rig/ (rig/scripts, rig/wizard.py "
+          "excluded), regenerated on every run (Gen/Effects.lean), lists every statement that can write in place through "
+          "a parameter, through `self` outside __init__, through a module-level / function / class name or a closure "
+          "cell; `effects_reviewed` (kernel-checked) shows every listed effect is one of 141 hand-reviewed entries (exact "
+          "function + root + kind + statement text + multiplicity, each with its justification: documented in-place API "
+          "on self, connection state, helper called on a fresh copy - the copying caller is named -, per-call kernel "
+          "state, integer arithmetic, the memo); `effects_scan_alive` shows the table is not empty and contains the memo "
+          "write the inventory knows. A new in-place edit of a caller's argument or a new cache on an object is an "
+          "unreviewed entry: the obligation breaks, the build log (and the replay file) names the statement, and the "
+          "extended dynamic search runs."),
     design="3/C17",
     note=("The AST scan is syntactic: writes through aliases of a shared object are not seen statically (they are what the "
-          "dynamic default-equals-literal and fresh-interpreter comparisons are for)."),
+          "dynamic default-equals-literal and fresh-interpreter comparisons are for). "
+          "EFFECT SCAN - what it sees: mutating methods of built-in containers (append, extend, insert, pop, remove, clear, "
+          "sort, reverse, update, setdefault, add, discard, popitem, __setitem__, deque / set-update methods ...), "
+          "subscript / attribute assignment, del, augmented assignment, heapq / random.shuffle / setattr / next() on a "
+          "reachable object; reachable = the parameter, or a name bound (also conditionally, in loops, by unpacking, in "
+          "comprehensions, `with ... as`) to it, to an element / attribute / .get() / .items() / .values() of it, to the "
+          "result of any other method of it, or to a local container that such an object was stored into; shallow copies "
+          "(dict(p), list(p), p[:], p.copy(), sorted(p), comprehensions) are fresh at the top and still shared below, "
+          "tracked by depth; *args / **kwargs are fresh containers of the caller's values; a rebinding `p = copy` ends "
+          "the taint for the rest of its block only; passing a reachable object to one of rig's own functions / methods "
+          "(resolved BY NAME, union over all definitions of that name; receivers count as self) that the scan found to "
+          "write through that position, iterated to a fixpoint over the whole library; nested functions inherit the "
+          "taint of the enclosing one; `global` / `nonlocal` statements and writes through free names. "
+          "What it CANNOT see (stays with the dynamic checks: deep snapshots, fresh-interpreter comparison, defaults = "
+          "literals): objects stored in an attribute of self / of a parameter in one method and written in another "
+          "(e.g. a kernel object keeping the machine it was given), aliases through dictionary KEYS, results of "
+          "FUNCTIONS that return (part of) their argument (e.g. apply_same_chip_constraints returns "
+          "vertices_resources.copy(), whose inner dicts are the caller's), callables held in variables (`kernel(...)`, `place(...)` "
+          "passed as parameter: resolved by name only), getattr with computed names / __dict__ / vars(), exec, C "
+          "extensions (rig_c_sa, NumPy views: a slice of an array is treated as a copy), generators advanced by "
+          "iteration, in-place operators hidden in methods of foreign classes, and augmented assignment on a bare name is "
+          "listed but not propagated to callers. The kernel-checked comparison is on the 40-bit tag the generator "
+          "computes from all fields of an entry; the field-by-field string comparison is evaluated by Lean's interpreter "
+          "in the same build (kernel evaluation of string equality is too slow) and fails the build too."),
     technique="Lean 4 theorems over a source-generated state inventory + fresh-interpreter history correspondence")
 
-THEOREMS = ["inventory_classified", "inventory_written_once", "memoGet_spec", "history_independent"]
+THEOREMS = ["inventory_classified", "inventory_written_once", "memoGet_spec", "history_independent",
+            "effects_reviewed", "effects_scan_alive"]
 
 RULE = ("a case is a history of 2-8 library calls (placers incl. rand/sa with a seeded generator, allocate, route, "
         "routing_tree_to_tables, three minimisers, bit-field definitions, machine controllers on the simulated network) "
@@ -44,7 +79,8 @@ RULE = ("a case is a history of 2-8 library calls (placers incl. rand/sa with a 
         "arguments; half of the histories are made of TWINS of the probe's problem (equal in everything but one of: dead "
         "links, one dead chip, resource exceptions, net weights, one constraint, one vertex's resources, wrap-around "
         "links), the public wrappers with all option combinations, the annealing placer on a problem with a pinned vertex "
-        "and same-chip groups placed three times with vertices that are equal but hash differently, bit-field tags "
+        "and same-chip groups placed three times with vertices that are equal but hash differently, the three single-table "
+        "minimisers on one kept table of mixed generality that is not in order, bit-field tags "
         "are also passed as the caller's own sets/lists shared between two bit fields; "
         "distinct = distinct (history, probe) specs")
 
@@ -178,6 +214,15 @@ def run(ctx):
     for e in inv:
         ctx.tag("inventory_" + e[4])
     ctx.extra["inventory"] = [e[:5] for e in inv]
+    # ---- static effect table (what Gen/Effects.lean was generated from, for the evidence) ----
+    try:
+        from harness.gen import c17 as gen_c17
+        effs = gen_c17.scan_effects(common_mod.REPO)
+        ctx.extra["effects_listed"] = len(effs)
+        for e in effs:
+            ctx.tag("effect_" + e[3].split(":")[0].split("(")[0])
+    except Exception as e:     # the translator reports this itself (broken translator obligation)
+        ctx.extra["effects_listed"] = "scan failed: %r" % (e,)
     rng = ctx.rng
     n = ctx.scale(100, 1000)
     if ctx.extended:
